@@ -114,6 +114,21 @@ def check_cell(item):
             elif wbytes(w) != model_bytes(bits):
                 bad('set_uint changed other bits or wrote a wrong value', got=wbytes(w).hex(),
                     expected=model_bytes(bits).hex())
+        elif kind == 'set_overflow':
+            # an in-place overwrite with a value that does not fit the field is refused and changes nothing
+            w = get_bit_writer()
+            if off:
+                w.write_bin('1' * off)
+            w.write_uint(1 if n > 1 else 0, n)
+            w.write_bin(SENT)
+            w.write_uint(0xA5, 8)
+            snapshot = wbytes(w)
+            try:
+                w.set_uint(v, n, off)
+                bad('value that does not fit was accepted by set_uint', before=snapshot.hex(), after=wbytes(w).hex())
+            except Exception:
+                if wbytes(w) != snapshot:
+                    bad('a refused set_uint changed the stream', before=snapshot.hex(), after=wbytes(w).hex())
         elif kind == 'overflow':
             w = get_bit_writer()
             if off:
@@ -168,6 +183,8 @@ def enum_cells():
                 cells.append(('set', n, v, off))
             for v in ((1 << n), (1 << n) + 1, -1):
                 cells.append(('overflow', n, v, off))
+            for v in ((1 << n), (1 << n) + 1, -1, -(1 << (n - 1)), -(1 << n)):
+                cells.append(('set_overflow', n, v, off))
             if n >= 2:
                 mags = []
                 for m in (0, 1, 1 << (n - 2), (1 << (n - 1)) - 1):
